@@ -108,3 +108,10 @@ def finding_key(cex):
         seq = cex["seq"]
         return "comp:%d,%d,%d" % (sum(1 for c in seq if c in T.POS), sum(1 for c in seq if c in T.NEG), len(seq))
     return "comp:%d,%d,%d" % (cex["p"], cex["n"], cex["N"])
+
+
+def fallback(item):
+    if item.get("kind") == "fp":
+        hi = item["nmax"]
+        return [dict(p=p, n=n, N=N) for (p, n, N) in item.get("probes", [])] + [dict(p=(7 * N) // 20, n=0, N=N) for N in range(item["nmin"], hi + 1) if N % 20 == 0]
+    return [dict(seq=q) for q in fallback_seqs(item, 3)]
